@@ -39,7 +39,7 @@ def handle : Handler := fun op args =>
       withArgs (do let m ← tok; let sd ← pNat; let d ← pNat; let reg ← pRats; let n ← pInt; let fid ← pNat; let p ← pRats
                    pure (m, sd, d, reg, n, fid, p)) args
       fun (m, sd, d, reg, n, fid, p) =>
-      if reg.length ≠ 2 * d ∨ d = 0 ∨ n ≤ 0 ∨ n > 6000 then "undef" else
+      if reg.length ≠ 2 * d ∨ d = 0 ∨ n ≤ 0 ∨ n > 2500 then "undef" else
       match fam fid d p with
       | none => "undef"
       | some f =>
@@ -49,7 +49,7 @@ def handle : Handler := fun op args =>
           showCall d r.1 r.2
         else if m = "Miser" then
           match miserTop mtU01 f pw23Approx reg n 0 g with
-          | some (v, pts) => showCall d v pts
+          | some (v, pts, kn) => showCall d v pts ++ (if kn then " knife 1" else " knife 0")
           | none => "undef"
         else "undef"
   | _ => none
